@@ -218,5 +218,5 @@ NOT_APPLICABLE['C23'] = 'same as C22 plus two whole solver runs'
 NOT_APPLICABLE['C24'] = 'absence of panics over all byte strings in a generated parser and a 2 kLoC lowering pass is beyond CBMC/Verus here'
 _PENDING = ['C01', 'C03', 'C05', 'C07', 'C08', 'C09', 'C11', 'C13', 'C14', 'C15', 'C16', 'C18', 'C19', 'C26', 'C27', 'C28', 'C29']
 for _p in _PENDING:
-    if _p not in PROPERTY_UNITS:
+    if _p not in PROPERTY_UNITS and _p not in NOT_APPLICABLE:
         NOT_APPLICABLE[_p] = "not claimed at this commit: the units planned for it in DESIGN.md section 5 are not built yet"
